@@ -243,6 +243,8 @@ class PrecipitateModel (PrecipitateBase):
                 self.PSDXalpha[p] = np.zeros((self.PBM[p].bins + 1,1))
                 self.PSDXbeta[p] = np.zeros((self.PBM[p].bins + 1,1))
 
+        #Store equilibrium compositions of the current table so they can be reused until the table is rebuilt
+        self._xEqLookup = (xEqAlpha, xEqBeta)
         return xEqAlpha, xEqBeta
     
     def _setupAspectRatio(self):
@@ -542,7 +544,9 @@ class PrecipitateModel (PrecipitateBase):
             #Temperature change is accumulated since the last time the lookup table was created
             self.dTemp = 0
         else:
-            xEqAlpha, xEqBeta = np.array([self.pData.xEqAlpha[self.pData.n]]), np.array([self.pData.xEqBeta[self.pData.n]])
+            #Reuse the equilibrium compositions that belong to the table in use
+            #   (the table may have been rebuilt during an intermediate stage of the iterator, so the last recorded step can be older)
+            xEqAlpha, xEqBeta = getattr(self, '_xEqLookup', (np.array([self.pData.xEqAlpha[self.pData.n]]), np.array([self.pData.xEqBeta[self.pData.n]])))
         Y.xEqAlpha = xEqAlpha
         Y.xEqBeta = xEqBeta
         
